@@ -8,6 +8,7 @@ import barandom
 
 class C02(PropertyCheck):
     pid = "C02"
+    release_too = True       # both build profiles (review 2: the both-modes theorems must be tied to a release build too)
     source_tables = ["BIN_HEADER"]   # tables / constants regenerated from /repo's source (gen/srctables.py)
     rule = ("random contents without c-strings (several labels per address, label names equal to strings, equal names at different "
             "addresses, equal buckets at different addresses, big-endian pointer data), each built by 3 differently shuffled API "
